@@ -104,6 +104,18 @@ func extractServer(repo string) (map[string]string, error) {
 			goast.LeanString(x[3]), goast.LeanString(x[4]), sep)
 	}
 	b.WriteString("]\n")
+	// --- option wiring: which command-line option feeds which constructor option --------------------
+	var wiring []string
+	for _, name := range []string{"NewMetastore", "NewKMS", "NewAppEncryption", "NewCryptoPolicy"} {
+		fd, err := f.Func(name)
+		if err != nil {
+			return nil, err
+		}
+		for _, u := range optionUses(fd) {
+			wiring = append(wiring, name+": "+u)
+		}
+	}
+	fmt.Fprintf(&b, "/-- every use of a field of *Options in the constructors of server.go, in source order -/\ndef optionWiring : List String := %s\n", goast.LeanStringList(wiring))
 	b.WriteString("end AsherahVerif.Generated.Server\n")
 	return map[string]string{"Server.lean": b.String()}, nil
 }
@@ -306,4 +318,61 @@ func protoFields(path string) ([][5]string, error) {
 		return nil, fmt.Errorf("%s: no message fields found", path)
 	}
 	return out, nil
+}
+
+// optionUses: every call, condition, switch tag and assignment of the function that mentions a field
+// of its *Options parameter, printed compactly, in source order (a flag wired to the wrong option is
+// invisible to the handler tests: the sidecar still round-trips its own records).
+func optionUses(fd *ast.FuncDecl) []string {
+	param := ""
+	if fd.Type.Params != nil {
+		for _, p := range fd.Type.Params.List {
+			if strings.HasSuffix(goast.ExprString(p.Type), "Options") && len(p.Names) == 1 {
+				param = p.Names[0].Name
+			}
+		}
+	}
+	if param == "" || fd.Body == nil {
+		return nil
+	}
+	mentions := func(e ast.Expr) bool {
+		found := false
+		ast.Inspect(e, func(n ast.Node) bool {
+			if se, ok := n.(*ast.SelectorExpr); ok {
+				if id, ok := se.X.(*ast.Ident); ok && id.Name == param {
+					found = true
+				}
+			}
+			return !found
+		})
+		return found
+	}
+	var out []string
+	ast.Inspect(fd.Body, func(n ast.Node) bool {
+		switch t := n.(type) {
+		case *ast.CallExpr:
+			for _, a := range t.Args {
+				if _, isCall := a.(*ast.CallExpr); !isCall && mentions(a) {
+					out = append(out, goast.ExprString(t))
+					break
+				}
+			}
+		case *ast.IfStmt:
+			if mentions(t.Cond) {
+				out = append(out, "if "+goast.ExprString(t.Cond))
+			}
+		case *ast.SwitchStmt:
+			if t.Tag != nil && mentions(t.Tag) {
+				out = append(out, "switch "+goast.ExprString(t.Tag))
+			}
+		case *ast.AssignStmt:
+			for i, r := range t.Rhs {
+				if _, isCall := r.(*ast.CallExpr); !isCall && mentions(r) && i < len(t.Lhs) {
+					out = append(out, goast.ExprString(t.Lhs[i])+"="+goast.ExprString(r))
+				}
+			}
+		}
+		return true
+	})
+	return out
 }
